@@ -198,6 +198,7 @@ class Writer:
         self.alias = [{}]     # stack of local-name -> caller place maps
         self.cur = None
         self.who = [None]     # which character a Data writer is running for
+        self.bodies = []      # bodies of the functions being walked (innermost last), for following lets
 
     def resolve(self, p):
         """rewrite a callee-local place through the alias stack to a caller-level place"""
@@ -364,7 +365,9 @@ class Writer:
         for pn, a in zip(params, args):
             env[pn] = self.resolve(tir.place(a))
         self.alias.append(env)
+        self.bodies.append(b["tir"]["value"])
         r = self.run(b["tir"]["value"], mult)
+        self.bodies.pop()
         self.alias.pop()
         self.depth -= 1
         if self.cur is not None and self.cur["depth"] > self.depth:
@@ -386,6 +389,15 @@ class Writer:
                 s, e = strip(f["start"]), strip(f["end"])
                 if e.get("k") == "Binary" and e["op"] == "Add" and tir.place(e["l"]) == tir.place(s) and tir.lit_int(e["r"]) is not None:
                     return Poly.const(tir.lit_int(e["r"]))
+                # end - start as linear forms, following immutable lets of the enclosing function (`let end = pos + 512`)
+                import linear
+                env = tir.LetEnv(self.bodies[-1]) if self.bodies else None
+                try:
+                    d = linear.add(linear.lin(env.resolve(e) if env else e), linear.lin(env.resolve(s) if env else s), -1)
+                    if not [k for k, v in d.items() if k and v] and d.get("", 0) >= 0:
+                        return Poly.const(d.get("", 0))
+                except linear.NonLinear:
+                    pass
         p = self.resolve(tir.place(a))
         if p:
             return Poly.atom("len(%s)" % p)
@@ -442,7 +454,41 @@ class Writer:
             f = {x["name"]: tir.pretty(x["e"]) for x in i["fields"]}
             if f.get("start") == "(offset[idx] as usize)" and f.get("end") == "(offset[(idx Add 1)] as usize)":
                 return Poly.atom("ITEMS_PER_FRAME")
+        if src.get("k") == "Struct" and (src.get("path") or "").endswith("ops::Range") and tir.lit_int({x["name"]: x["e"] for x in src["fields"]}.get("start") or {}) == 0:
+            # 0..n with n a small selection on the double-Game-End quirk: `if double { 2 } else { 1 }` in any spelling
+            end = {x["name"]: x["e"] for x in src["fields"]}.get("end")
+            sel = self.flag_select(end)
+            if sel is not None:
+                return sel
+        if src.get("k") == "MethodCall" and src["method"] == "step_by" and tir.lit_int(src["args"][0]) == 512:
+            rg = strip(src["recv"])
+            if rg.get("k") == "Struct" and (rg.get("path") or "").endswith("ops::Range"):
+                f = {x["name"]: x["e"] for x in rg["fields"]}
+                if tir.lit_int(f.get("start") or {}) == 0 and "actual_size" in tir.pretty(f.get("end") or {}):
+                    return Poly.atom("GECKO_BLOCKS")      # 0, 512, .. below actual_size: one iteration per 512-byte block
         raise Unsupported(n, "writer loop over an iterator outside the fragment: " + it[:80])
+
+    def flag_select(self, e):
+        """DOUBLE*a + (1-DOUBLE)*b for an expression selecting between two integer literals on game.quirks' double_game_end"""
+        env = tir.LetEnv(self.bodies[-1]) if self.bodies else None
+        e = env.resolve(e) if env else strip(e)
+        bb = tir.bool_branch(e) if e.get("k") in ("If", "Match") else None
+        if bb is not None and bb[2] is not None:
+            off = tir.opt_field_flag(env.resolve(bb[0]) if env else bb[0])
+            a, b = tir.lit_int(L.strip_try(bb[1])), tir.lit_int(L.strip_try(bb[2]))
+            if off and (off[0] or "").endswith("quirks") and off[1] == "double_game_end" and a is not None and b is not None:
+                return Poly.atom("DOUBLE") * Poly.const(a) + (Poly.const(1) - Poly.atom("DOUBLE")) * Poly.const(b)
+        if e.get("k") == "Match" and (tir.place(e["scrut"]) or "").endswith("quirks") and len(e["arms"]) == 2:
+            # match game.quirks { Some(q) if q.double_game_end => a, _ => b }
+            a0, a1 = e["arms"]
+            p = a0["pat"]
+            g = strip(a0.get("guard") or {})
+            if (p.get("k") == "TupleStruct" and (p.get("path") or "").endswith("Some") and p["pats"][0].get("k") == "Bind" and g.get("k") == "Field" and g["name"] == "double_game_end"
+                    and strip(g["base"]).get("id") == p["pats"][0]["id"] and a1["pat"].get("k") == "Wild" and not a1.get("guard")):
+                a, b = tir.lit_int(L.strip_try(a0["body"])), tir.lit_int(L.strip_try(a1["body"]))
+                if a is not None and b is not None:
+                    return Poly.atom("DOUBLE") * Poly.const(a) + (Poly.const(1) - Poly.atom("DOUBLE")) * Poly.const(b)
+        return None
 
     def while_count(self, n):
         txt = tir.pretty(n["body"])
@@ -533,6 +579,19 @@ class RawSize:
                     return Poly.atom("VC(%s)" % who)
             if e["op"] == "Add":
                 return self.count_expr(l, lenname) + self.count_expr(r, lenname)
+        if k == "Match" and (tir.place(e["scrut"]) or "").endswith(".follower") and len(e["arms"]) == 2:
+            # match &p.follower { Some(f) => .., None => 0 }
+            some = none = None
+            for a in e["arms"]:
+                q = a["pat"]
+                while q.get("k") == "Ref":
+                    q = q["pat"]
+                if q.get("k") == "TupleStruct" and (q.get("path") or "").endswith("Some") and not a.get("guard"):
+                    some = a["body"]
+                elif not a.get("guard"):
+                    none = a["body"]
+            if some is not None and none is not None and tir.lit_int(none) == 0:
+                return Poly.atom("SOME(follower)") * self.count_expr(some, lenname)
         if k == "MethodCall" and e["method"] == "map_or" and tir.lit_int(e["args"][0]) == 0:
             pl = tir.place(e["recv"]) or ""
             cl = strip(e["args"][1])
@@ -590,6 +649,9 @@ class RawSize:
         bb = tir.bool_branch(e) if k in ("Match", "If") else None
         if bb is not None and bb[2] is not None:
             sc = strip(bb[0])
+            if sc.get("k") == "MethodCall" and sc["method"] in ("is_some", "is_none") and not sc.get("args") and tir.place(sc["recv"]) == "game.end":
+                t, f_ = (bb[1], bb[2]) if sc["method"] == "is_some" else (bb[2], bb[1])
+                return Poly.atom("END") * self.ev(t, counts, env) + (Poly.const(1) - Poly.atom("END")) * self.ev(f_, counts, env)
             off = tir.opt_field_flag(sc)
             if off and (off[0] or "").endswith("quirks") and off[1] == "double_game_end":
                 t = self.ev(bb[1], counts, env)
@@ -638,6 +700,7 @@ def raw_region(F, v, fixed):
     stmts = val.get("stmts", []) + ([val["tail"]] if val.get("tail") else [])
     per = []
     w = Writer(F, v, fixed)
+    w.bodies.append(b["tir"]["value"])
     for s in stmts:
         n0 = len(w.events)
         p = w.run(s, Poly.const(1))
